@@ -1,2 +1,5 @@
 //! Reference models. None of these may use zerv code.
 pub mod san;
+pub mod semver;
+pub mod cal;
+pub mod pep440;
